@@ -92,3 +92,12 @@ func unixProcAttrFauxTTY() *syscall.SysProcAttr {
 		//Pgid: 0, // Child's process group ID if Setpgid.
 	}
 }
+
+// signalExitNum returns the exit number for a process that was terminated by a
+// signal: 128 + signal number, like POSIX shells. It is never zero.
+func signalExitNum(state *os.ProcessState) int {
+	if ws, ok := state.Sys().(syscall.WaitStatus); ok && ws.Signaled() {
+		return 128 + int(ws.Signal())
+	}
+	return 1
+}
